@@ -16,6 +16,8 @@ var commands = map[string]func([]string){
 	"c14gen":  cmdC14Gen,
 	"c19":     cmdC19,
 	"c13":     cmdC13,
+	"c17x":    cmdC17X,
+	"c18":     cmdC18,
 	"c14rand": cmdC14Rand,
 	"c07stress": cmdC07Stress,
 }
